@@ -150,15 +150,12 @@ pub fn history(ctx: &mut Ctx, cmd: &Value) -> Vec<Value> {
         },
         "decode" => match ctx.decs.get_mut(&id) {
             Some(d) => {
-                if !cmd["pre"].as_bool().unwrap_or(false) {
-                    let b = bytes(&cmd["bytes"]);
-                    let mut s = d.src.data.borrow_mut();
-                    s.0.extend_from_slice(&b);
-                    s.1 = s.0.len();
-                }
                 // The property excludes inputs whose declared picture size would not fit in memory:
                 // with "guard_size" the header is pre-parsed with the public parser on a copy of the
                 // data and calls declaring more than 2^22 luma samples are skipped (and counted).
+                // A skipped call delivers nothing: its bytes must not reach the reader either (in a
+                // stream every later call would start at them).
+                let mut skip = false;
                 if cmd["guard_size"].as_bool().unwrap_or(false) {
                     let copy = bytes(&cmd["bytes"]);
                     let g = Growing { data: Rc::new(RefCell::new((copy.clone(), copy.len(), 0))), maxread: 0 };
@@ -169,13 +166,22 @@ pub fn history(ctx: &mut Ctx, cmd: &Value) -> Vec<Value> {
                         if let Some(f) = p.format {
                             if let Some((w, h)) = f.into_width_and_height() {
                                 if (w as u64) * (h as u64) > (1u64 << 22) {
-                                    ev["ret"] = json!("skipped:declared-size-too-large");
-                                    ev["rc"] = json!("skip");
-                                    return vec![ev];
+                                    skip = true;
                                 }
                             }
                         }
                     }
+                }
+                if skip {
+                    ev["ret"] = json!("skipped:declared-size-too-large");
+                    ev["rc"] = json!("skip");
+                    return vec![ev];
+                }
+                if !cmd["pre"].as_bool().unwrap_or(false) {
+                    let b = bytes(&cmd["bytes"]);
+                    let mut s = d.src.data.borrow_mut();
+                    s.0.extend_from_slice(&b);
+                    s.1 = s.0.len();
                 }
                 let r = guarded(|| d.state.decode_next_picture(&mut d.reader));
                 match r {
